@@ -85,6 +85,10 @@ type ctl struct {
 	rt     func(e evt) // real-time mode: called under mu for every event
 	bygor  map[uint64]*lp
 	epoch  int // current behaviour: frames of abandoned sessions are ignored
+	// send-overlap stage
+	holdArmed   bool
+	holding     bool
+	holdRelease chan struct{}
 }
 
 func newCtl() *ctl {
@@ -312,11 +316,24 @@ type seqConn struct {
 }
 
 func (s *seqConn) WriteTo(b []byte, addr net.Addr) (int, error) {
+	// send-overlap stage: the first write after arming is held BEFORE the frame is read, the way a slow
+	// device would; whatever happens to the caller's buffer meanwhile ends up on the wire
+	held := false
+	s.c.mu.Lock()
+	if s.c.holdArmed {
+		s.c.holdArmed, s.c.holding, held = false, true, true
+		rel := s.c.holdRelease
+		s.c.cond.Broadcast()
+		s.c.mu.Unlock()
+		<-rel
+	} else {
+		s.c.mu.Unlock()
+	}
 	cp := make([]byte, len(b))
 	copy(cp, b)
 	g := goid()
 	s.c.mu.Lock()
-	e := evt{kind: "frame", frame: cp, gor: g, epoch: s.epoch}
+	e := evt{kind: "frame", frame: cp, gor: g, epoch: s.epoch, b3: held}
 	if l := s.c.bygor[g]; l != nil {
 		e.loop = l.gid
 	}
